@@ -148,8 +148,8 @@ def flat_model(v, pid, tier, invariants):
                    f"{cases} predicted structures (flat uncompiled, flat compiled, deep) compared with verif_dump, {drift} differ")
 
 
-def expr_dir_a(v, pid, tier, entries, what, sample_every=0):
-    ncases, nruns, nident, obs = mcref_replay(v, pid, expr_runs(tier), entries, sample_every=sample_every)
+def expr_dir_a(v, pid, tier, entries, what, sample_every=0, runs=None):
+    ncases, nruns, nident, obs = mcref_replay(v, pid, runs or expr_runs(tier), entries, sample_every=sample_every)
     v.cov["traces_validated_against_impl"] += nruns
     v.cov["evaluations"] += nruns
     v.notes.append(f"direction A: {ncases} TLC-enumerated (tree, rendering) cases replayed through {entries}; "
@@ -704,6 +704,10 @@ def c04(a):
     v.cov["distinct_nontrivial"] = summ["cases"]
     v.cov["exhaustive"] = True
     v.sample({"text": "{ a} + B * a1 + {a}", "vars": [" a", "B", "a", "a1"]})
+    # derived variable lists: operator application / substitution / conversion on expressions with up to ~40 variables (merged
+    # lists beyond the inline capacity of 16), judged by the session specification
+    calc_pipeline(v, "C04", a.tier, [], 0, ["manyvars"], {"seed", "op_bin", "op_un", "std", "subs", "to_deep", "to_flat"},
+                  "variables are not found/ordered/bound as documented", 160 if a.tier == "quick" else 2400)
     return v.finish()
 
 
@@ -1085,7 +1089,7 @@ def finish_calc(v, rule, sample):
 def c10(a):
     v = Verdict("C10", a.tier, "model_checking")
     q = a.tier == "quick"
-    calc_pipeline(v, "C10", a.tier, ["op", "std", "conv"], 1 if q else 2, ["ops", "mixed"], {"op_un", "op_bin", "std"},
+    calc_pipeline(v, "C10", a.tier, ["op", "std", "conv"], 1 if q else 2, ["ops", "mixed", "manyvars"], {"op_un", "op_bin", "std"},
                   "operator application is not a homomorphism", 400 if q else 6000)
     # all two-call histories of the overloaded operators / helpers: shortcuts feeding shortcuts (a zero that still carries variables)
     calc_pipeline(v, "C10b", a.tier, ["std"], 2, [], {"std"}, "operator application is not a homomorphism", 0)
@@ -1107,10 +1111,30 @@ def c11(a):
 def c12(a):
     v = Verdict("C12", a.tier, "model_checking")
     q = a.tier == "quick"
+    # direction A at text level: every enumerated tree x rendering over T8 (alphabetic binary names next to unary names, dual
+    # sign operators, a constant) is parsed, brought into the deep form three ways, printed, parsed again (flat and deep),
+    # and the result judged against the meaning of the original text
+    expr_dir_a(v, "C12", a.tier, ["d_up", "f2d_up", "fwo2d_up", "d_up_d", "f2d_up_d"], "a printed expression does not parse back to the same expression",
+               runs=[r for r in expr_runs(a.tier) if not (q and r["table"] == "T8" and r["n"] >= 3)])
+    na = v.cov["distinct_nontrivial"]
+    # model level: DeepImpl.Unparse (transcription of unparse_raw) prints every enumerated deep expression - parsed, and
+    # rebuilt from the flat form - to a text whose reference meaning is the expression (folded numbers spelled as a literal)
+    deep_model(v, "C12", a.tier, ["UnparseRefines"])
+    # ... and the invariant is not vacuous: the printer of the pinned snapshot (no blanks around alphabetic operator names,
+    # defect F7) violates it
+    cfgp = work("C12", "mcdeep-pinned.cfg")
+    write_cfg(cfgp, {"T": ("<-", "T8"), "NLeaves": 2, "MaxUn": 2, "WithConst": True, "BumpGuard": True, "FoldRule": "local", "Shard": 0, "NShards": 1},
+              invariants=["UnparseRefinesPinned"])
+    rp = vlib.run_tlc("MC_Deep", cfgp, "C12-mcdeep-pinned", workers=4, timeout=900, heap="3g")
+    if rp.violated != "UnparseRefinesPinned":
+        print(rp.out[-2000:])
+        raise vlib.ToolError("MC_Deep: the printer without blanks is expected to violate UnparseRefinesPinned (witness of F7) - spec bug")
+    v.notes.append("MC_Deep.UnparseRefinesPinned is violated as expected (`+(+({x1}mnK))`): the printing invariant tells the fixed printer from the pinned one")
     calc_pipeline(v, "C12", a.tier, ["print", "op", "conv"] if q else ["print", "op", "std", "subs", "conv", "diff"], 2,
                   ["print", "mixed", "advnames", "typed"], {"reparse", "serde", "seed"}, "a printed expression does not parse back to the same expression",
                   400 if q else 6000)
-    return finish_calc(v, "all histories of <= 2 calls ending in or containing unparse->parse / serde round trips + random histories",
+    v.cov["distinct_nontrivial"] += na
+    return finish_calc(v, "all trees x renderings of MC_Ref printed from the deep form and parsed back + all histories of <= 2 calls ending in or containing unparse->parse / serde round trips + random histories",
                        {"history": ["op_bin 1 2 '/'", "reparse 7"]})
 
 
